@@ -43,8 +43,8 @@ impl Check for C01 {
     }
     fn runs(&self, tier: Tier) -> u64 {
         match tier {
-            Tier::Quick => 150_000,
-            Tier::Thorough => 10_000_000,
+            Tier::Quick => 1_500_000,
+            Tier::Thorough => 45_000_000,
         }
     }
 
@@ -93,7 +93,8 @@ impl Check for C01 {
             st.inc("out_of_scope_ambiguous");
             return Ok(ExecOk { nontrivial: false });
         }
-        let expected = wcases::written_tags(&c.ops);
+        // into_inner() closes whatever is still open (only shrunk histories leave masters open)
+        let expected = wcases::expected_with_eof_ends(&c.ops);
         for t in &expected {
             match &t.val {
                 Val::S(s) => st.max("max_payload_len", s.len() as u64),
